@@ -12,6 +12,7 @@ import (
 	"encoding/json"
 	"fmt"
 	"sort"
+	"strings"
 
 	tmed "github.com/tendermint/tendermint/crypto/ed25519"
 	tmsecp "github.com/tendermint/tendermint/crypto/secp256k1"
@@ -36,6 +37,7 @@ type Step struct {
 	Msg   string `json:"msg,omitempty"`
 	Mut   string `json:"mut,omitempty"` // multisig: none reorder duplicate missing truncate nested-misplaced
 	Hint  string `json:"hint,omitempty"` // export_armor: the hint stored with the export
+	K     int    `json:"k,omitempty"`    // crash: how many writes of the next operation succeed before the process dies
 }
 
 type Trace struct {
@@ -75,6 +77,7 @@ type exec struct {
 	step int
 	seed uint64
 	crashNext bool
+	crashK    int
 }
 
 func (e *exec) viol(oracle string, attrs map[string]string, f string, a ...interface{}) {
@@ -129,7 +132,7 @@ func Execute(tr *Trace) (*core.Result, error) {
 // guarded runs f with the crash fault armed if requested: the crash fires before the next DB write.
 func (e *exec) guarded(f func()) (crashed bool, pan interface{}) {
 	if e.crashNext {
-		e.db.CrashBefore(e.db.Seq())
+		e.db.CrashBefore(e.db.Seq() + int64(e.crashK))
 	}
 	func() {
 		defer func() {
@@ -148,6 +151,9 @@ func (e *exec) guarded(f func()) (crashed bool, pan interface{}) {
 		e.crashNext = false
 		if crashed {
 			e.res.Stats.Fault("crash_before_write")
+			if e.crashK > 0 {
+				e.res.Stats.Fault("crash_between_writes")
+			}
 			// the process is gone: a new keybase object over what is durable
 			e.db.Revive()
 			e.kb = keys.NewKeybaseWithDB(e.db)
@@ -174,7 +180,14 @@ func (e *exec) do(s *Step) {
 	st.C("ops", 1)
 	st.C("op_"+s.Op, 1)
 	before := e.db.Dump()
+	midOp := e.crashNext && e.crashK > 0 // a crash, if it comes, comes after some writes of the operation
 	unchanged := func(what string) {
+		if midOp && strings.HasPrefix(what, "a crash") {
+			// create/import: the key either made it (then it opens under the passphrase given) or it did not;
+			// every other key is as before
+			e.afterMidCrash(s, nil, nil)
+			return
+		}
 		after := e.db.Dump()
 		if !dumpsEqual(before, after) {
 			e.viol("failed-op-changed-store", map[string]string{"op": s.Op, "what": what}, "%s with %s changed the stored keys", s.Op, what)
@@ -295,6 +308,12 @@ func (e *exec) do(s *Step) {
 			return
 		}
 		e.log = append(e.log, fmt.Sprintf("update err=%v crashed=%v", err != nil, crashed))
+		if crashed && midOp {
+			// the process died part-way through the re-encryption: whatever the operation does on disk, the key is
+			// still there afterwards, under the old passphrase or under the new one
+			e.afterMidCrash(s, addr, mk)
+			return
+		}
 		if crashed {
 			unchanged("a crash before the write")
 			return
@@ -321,6 +340,10 @@ func (e *exec) do(s *Step) {
 			return
 		}
 		e.log = append(e.log, fmt.Sprintf("delete err=%v crashed=%v", err != nil, crashed))
+		if crashed && midOp {
+			e.afterMidCrash(s, addr, mk)
+			return
+		}
 		if crashed {
 			unchanged("a crash before the write")
 			return
@@ -501,6 +524,7 @@ func (e *exec) do(s *Step) {
 		e.log = append(e.log, "reopen")
 	case "crash":
 		e.crashNext = true
+		e.crashK = s.K
 	case "multisig":
 		e.multisig(s)
 	}
@@ -519,6 +543,59 @@ func dumpsEqual(a, b [][2][]byte) bool {
 }
 
 // checkListing: List() equals the model after every step.
+// afterMidCrash: the process died after some - not all - writes of operation s (which addressed key addr, known to the
+// model as mk). No key may be lost or altered by that: every key of the model is still stored and opens under its
+// passphrase; the addressed key of an update may open under the new passphrase instead, the addressed key of a delete
+// may be gone; a create/import may have added its key (it then opens under the passphrase given).
+func (e *exec) afterMidCrash(s *Step, addr sdk.Address, mk *mKey) {
+	opens := func(a sdk.Address, pub crypto.PublicKey, pass string) bool {
+		msg := []byte("after-crash")
+		sig, _, err := e.kb.Sign(a, pass, msg)
+		return err == nil && pub.VerifyBytes(msg, sig)
+	}
+	target := ""
+	if mk != nil && mk.pass == s.Pass {
+		target = hex.EncodeToString(addr)
+	}
+	var ahs []string
+	for ah := range e.model {
+		ahs = append(ahs, ah)
+	}
+	sort.Strings(ahs)
+	for _, ah := range ahs {
+		k := e.model[ah]
+		switch {
+		case opens(k.addr, k.pub, k.pass):
+		case ah == target && s.Op == "update" && opens(k.addr, k.pub, s.Pass2):
+			k.pass = s.Pass2
+			e.res.Stats.Probe("mid_crash_update_took_effect")
+		case ah == target && s.Op == "delete":
+			if _, err := e.kb.Get(k.addr); err == nil {
+				e.viol("key-damaged-by-crash", map[string]string{"op": s.Op}, "after a crash inside Delete the key is listed but does not open under its passphrase")
+			}
+			delete(e.model, ah)
+		default:
+			e.viol("key-lost-in-crash", map[string]string{"op": s.Op}, "after a crash inside %s (%d write(s) done) key %s is gone or no longer opens under its passphrase", s.Op, e.crashK, ah[:8])
+		}
+	}
+	// keys the model does not know: only the one a create/import was adding
+	if list, err := e.kb.List(); err == nil {
+		for _, kp := range list {
+			ah := hex.EncodeToString(kp.GetAddress())
+			if _, ok := e.model[ah]; ok {
+				continue
+			}
+			if (s.Op == "create" || strings.HasPrefix(s.Op, "import")) && opens(kp.GetAddress(), kp.PublicKey, s.Pass) {
+				e.model[ah] = &mKey{addr: kp.GetAddress(), pub: kp.PublicKey, pass: s.Pass}
+				e.slots[s.Slot] = ah
+				continue
+			}
+			e.viol("key-damaged-by-crash", map[string]string{"op": s.Op}, "after a crash inside %s the keybase lists key %s which nobody can open", s.Op, ah[:8])
+		}
+	}
+	e.res.Stats.Probe("mid_operation_crash_checked")
+}
+
 func (e *exec) checkListing() {
 	kps, err := e.kb.List()
 	if err != nil {
